@@ -18,6 +18,27 @@ claim('C08', 'exhaustive enumeration (n<=3/4) + Hypothesis generated Pauli strin
       '(n=31 for index conversions) and batch shapes are compared with an independent phase-table algebra. Bugs confined to n>=4 pair products or n>12 are not excluded.',
       'trusted: vf/ref.py Pauli phase table and numpy kron; numqi is only the system under test')
 
+claim('C09', 'exhaustive enumeration of all tuples (n<=2; n=3 thorough) and vector pairs + Hypothesis tuples to n=10; oracle: defining equation M L M^T = L, exact round trip, counting',
+      'Bijectivity for n<=2 (quick) / n<=3 (thorough) is decided completely: every image symplectic, exact round trip (injective), count = group order (onto), '
+      'brute-force solution set for n<=2; transvections for every ordered vector pair n<=3 (4). Larger n is sampled (digit extremes biased).',
+      'trusted: group order formula, F2 matrix arithmetic in numpy int64')
+claim('C12', 'Hypothesis generated channels/states; oracle: loop reference action, explicit index formulas, textbook Gell-Mann Bloch vectors, metamorphic data-processing inequalities',
+      'Channels are constructed by vf (all dims 1..5, every admissible number of terms, real/complex, isometry/unitary/replacer) and every conversion path and apply_* routine '
+      'is compared with the explicit reference; monotonicity of T, F, S is a metamorphic relation independent of any implementation. Sampling only: no exhaustiveness.',
+      'trusted: numpy eigh/svd for reference fidelity/entropy; tolerances 1e-10 linear, 5e-6 for square-root quantities')
+claim('C14', 'complete enumeration of all constructible tables / N / shapes + Hypothesis call histories for the memoised counters; oracle: group axioms, character orthonormality, pentagonal recurrence, hook counting',
+      'All 52 constructible tables are checked over all element triples; partition counts for all N<=60; tableaux for every partition of N<=8 (10); '
+      'the memoised counting functions are additionally driven by generated call sequences (larger N before smaller N).',
+      'trusted: vf/ref.py recurrences; irreps only for order<=24 in quick (<=120 thorough)')
+claim('C16', 'enumeration of bases d<=8, tensor_n<=2 + Hypothesis matrices/batches/backends; oracle: explicit expansion v_i = Tr(G_i A)/2 with a textbook basis',
+      'Basis properties are decided completely for d=2..8; analysis/synthesis and density-matrix helpers are compared with the explicit expansion for generated '
+      'matrices of every kind, batch shape, backend and precision.',
+      'trusted: vf/ref.py gellmann_basis; float32 tolerance 2e-4 relative')
+claim('C17', 'Hypothesis dimension lists with every keep-subset, enumerated Dicke bases, generated A(x)Sym^k(B) vectors; oracle: loop / successive-trace contraction, own Dicke vectors, explicit embedding',
+      'Every non-empty keep-subset of each generated dimension list is compared with two independent reference contractions; Dicke bases are enumerated up to dim^k<=1024 (4096); '
+      'the fast reduction is compared with explicit embedding and tracing in both backends.',
+      'trusted: numpy trace/einsum in the reference; klist order taken from get_dicke_klist (each klist validated)')
+
 NOT_YET = 'check not built yet in this session (work in progress; see DESIGN.md section 4 for the planned generator and oracle)'
 
 ALL = [f'C{i:02d}' for i in range(1, 21)]
